@@ -9,8 +9,8 @@ checks = {
  "C03": ("xr", "§4 C03", "Exact value ledger (balances of every tracked account in every token, endpoint outTokens/bindings, supplies) predicted per accepted send/receive/ack incl. failing destination execution; cross-chain escrow==minted equation at quiescence. Sixth wave: destination calls that succeed with kilobytes of return data."),
  "C04": ("xr", "§4 C04", "Model of per-destination sequence numbers, commitments and the two counters checked after every send transaction, valid and invalid, packed and reordered, including several sends performed by one transaction (multicall contract), sends nested in a receive (agent contract), non-zero fee options, and look-alike PacketSent events emitted by an unprivileged contract (nothing may be committed for them). Sixth wave: destinations spelled like a known chain name (trailing slash, dot segments, case, padding): no client of that name, so nothing may be committed."),
  "C05": ("xr", "§4 C05", "Ack life-cycle model: one ack per accepted receive in the same tx, monotone ack store, commitment removed only by the verified ack of exactly that packet, processed at most once (status, fee, callback counter); where the destination execution certainly fails (reverting target, failing post-transaction hook, nested send without client) the acknowledgement must be an error acknowledgement. Fifth wave: source-side acknowledgement callbacks that fail (the acknowledgement must not count as processed), acknowledgements relayed after the counterparty's client was toggled, BSC-world acknowledgements under storage proofs."),
- "C06": ("xr", "§4 C06", "ACL table oracle over signers x message kinds x registries and over callers/call paths of every privileged contract method; rejected attempts must leave state unchanged. A TSS-secured counterparty: receives and acknowledgements are accepted only from the TSS account whatever the proof field carries; relayers declaring another relayer's remote address; updates of the TSS client only by the TSS account while it is registered for that chain. Sixth wave: the TSS group rotates between two accounts (with new or unchanged group key); the replaced account must lose all authority at once."),
- "C19": ("xr", "§4 C19", "End-to-end deliverability and store read-back refinement over simulated histories: every packet and acknowledgement that travels is decoded with teleport's codec and compared field by field with an independent decoder and re-encoded; consensus heights/revisions with special bytes, counterparty sequences over the whole uint64 range and chain names that are path words are written and read back through the keepers' iterators; canonical packet paths; sixth wave: chain names that are prefixes of one another, read back by path through the keeper iteration and the two gRPC list queries. Narrower than the statement: the codec's full input space is not a simulation target."),
+ "C06": ("xr", "§4 C06", "ACL table oracle over signers x message kinds x registries and over callers/call paths of every privileged contract method; rejected attempts must leave state unchanged. A TSS-secured counterparty: receives and acknowledgements are accepted only from the TSS account whatever the proof field carries; relayers declaring another relayer's remote address; updates of the TSS client only by the TSS account while it is registered for that chain. Sixth wave: the TSS group rotates between two accounts (with new or unchanged group key); the replaced account must lose all authority at once. Eighth wave: the TSS account must itself be registered for exactly that chain name (case-sensitive) for receives and acknowledgements as well."),
+ "C19": ("xr", "§4 C19", "End-to-end deliverability and store read-back refinement over simulated histories: every packet and acknowledgement that travels is decoded with teleport's codec and compared field by field with an independent decoder and re-encoded; consensus heights/revisions with special bytes, counterparty sequences over the whole uint64 range and chain names that are path words are written and read back through the keepers' iterators; canonical packet paths; sixth wave: chain names that are prefixes of one another, read back by path through the keeper iteration and the two gRPC list queries; eighth wave: two-sided deliverability - an uncorrupted message whose proof an independent ICS-23 verifier accepts for the canonical key, at a height the client verified itself, must not be refused with a proof error. Narrower than the statement: the codec's full input space is not a simulation target."),
 }
 pending = {}
 allp = [json.loads(l)["id"] for l in open(os.path.join(V, "properties.jsonl"))]
